@@ -36,7 +36,9 @@ CONSTANTS NTypes,     \* instance types t1..tN (cpu 2000 * 2^(i-1))
           ZMods,      \* zone-zb modifiers per capacity type: "same", "dear", "unavail", "none"
           MaxCands,   \* nodes to remove
           MinS2S,     \* spot-to-spot: cheaper options a single node needs (15 in the code, small here)
-          Focus,      \* "price": full price grid, trivial pods; "pods": fixed price table, pod / room / churn variations
+          Focus,      \* "price": full price grid, trivial pods; "pods": fixed price table, pod / room / churn variations;
+                      \* "avail": offerings of every capacity type unavailable independently, an (exhausted) reservation
+          UnavCTs,    \* avail focus: the capacity types whose zone-za offering may be unavailable, per instance type
           Weak,       \* "" | name of a weakened guard | "*" (every weakening in one run)
           GenMod, GenRes   \* scenario generation: the slice Hash(scenario) % GenMod = GenRes of the grid (1, 0 = all)
 
@@ -50,17 +52,23 @@ TCpu(i) == IF i = 1 THEN 2000 ELSE 2 * TCpu(i - 1)
 VARIABLES sc, cmd, phase, launch, wk
 vars == <<sc, cmd, phase, launch, wk>>
 WeakPrice == {"le", "cheapest", "noPin", "s2sFlag", "s2sFew", "s2sNoTruncate", "sameType", "twoReplacements"}
+WeakAvail == {"ignoreAvail"}
 WeakPods == {"emptyCost", "noHome", "noRevalidate", "noReprice"}
-AllWeak == WeakPrice \cup WeakPods
+AllWeak == WeakPrice \cup WeakPods \cup WeakAvail
 
 \* ---------------------------------------------------------------- the price table of a scenario
-Offered(s, i, ct, z) == z = "za" \/ s.zmod[ct] # "none"
-Avail(s, i, ct, z) == z = "za" \/ s.zmod[ct] # "unavail"
+\* s.unav[i]: capacity types whose zone-za offering of type i is currently unavailable (ICE);
+\* s.resv = [t, state, price]: a capacity reservation on type t in zone za ("none" | "avail" | "exhausted")
+Offered(s, i, ct, z) == IF ct = Reserved THEN s.resv.state # "none" /\ s.resv.t = i /\ z = "za"
+                        ELSE z = "za" \/ s.zmod[ct] # "none"
+Avail(s, i, ct, z) == IF ct = Reserved THEN s.resv.state = "avail"
+                      ELSE IF z = "za" THEN ct \notin s.unav[i] ELSE s.zmod[ct] # "unavail"
 \* s.spike: the spot prices went up by 4 while a command waited (price-table churn)
-Price(s, i, ct, z) == (IF z = "zb" /\ s.zmod[ct] = "dear" THEN s.base[i][ct] + 2 ELSE s.base[i][ct])
-                      + (IF ct = Spot /\ s.spike THEN 4 ELSE 0)
-\* the four offerings of a type, in a fixed order (one that is not offered is simply never available)
-OffSeq == <<<<Spot, "za">>, <<Spot, "zb">>, <<OnDemand, "za">>, <<OnDemand, "zb">>>>
+Price(s, i, ct, z) == IF ct = Reserved THEN s.resv.price
+                      ELSE (IF z = "zb" /\ s.zmod[ct] = "dear" THEN s.base[i][ct] + 2 ELSE s.base[i][ct])
+                           + (IF ct = Spot /\ s.spike THEN 4 ELSE 0)
+\* the five offerings of a type, in a fixed order (one that is not offered is simply never available)
+OffSeq == <<<<Spot, "za">>, <<Spot, "zb">>, <<OnDemand, "za">>, <<OnDemand, "zb">>, <<Reserved, "za">>>>
 Usable(s, i, ct, z) == Offered(s, i, ct, z) /\ Avail(s, i, ct, z)
 
 \* ---------------------------------------------------------------- the cluster in SchedulingGuards shapes
@@ -69,7 +77,7 @@ NodeNames(s) == [i \in DOMAIN s.cands |-> "c" \o ToString(i)]
 RestName == "r"
 Universe(s) == [k \in {"zone", "ct", "it", "host"} |->
                   CASE k = "zone" -> <<"za", "zb", "~">>
-                    [] k = "ct"   -> <<Spot, OnDemand, "~">>
+                    [] k = "ct"   -> <<Spot, OnDemand, Reserved, "~">>
                     [] k = "it"   -> [i \in 1..(NTypes + 1) |-> IF i <= NTypes THEN TName(i) ELSE "~"]
                     [] k = "host" -> [i \in 1..(Len(s.cands) + 2) |->
                                         IF i <= Len(s.cands) THEN NodeNames(s)[i] ELSE IF i = Len(s.cands) + 1 THEN RestName ELSE "~"]]
@@ -110,10 +118,13 @@ ClaimRec(s, c) ==
                    [] k = "ct"   -> [defined |-> TRUE, op |-> "In", has |-> HasVec(s, k, c.cts)]
                    [] OTHER      -> [defined |-> FALSE, op |-> "-", has |-> [i \in DOMAIN Universe(s)[k] |-> TRUE]]],
      its |-> [i \in DOMAIN c.opts |-> TName(c.opts[i])], taints |-> <<>>, reserved |-> <<>>]
-OptV(s, c, i) ==
+\* avail = FALSE: the (wrong) view that takes every offered, admitted offering for launchable, available or not
+OptVA(s, c, i, avail) ==
     [name |-> TName(i),
      offs |-> [j \in DOMAIN OffSeq |-> [zone |-> OffSeq[j][2], ct |-> OffSeq[j][1], price |-> Price(s, i, OffSeq[j][1], OffSeq[j][2]),
-                                        ok |-> Usable(s, i, OffSeq[j][1], OffSeq[j][2]) /\ OffSeq[j][1] \in c.cts /\ OffSeq[j][2] \in c.zones]]]
+                                        ok |-> /\ (IF avail THEN Usable(s, i, OffSeq[j][1], OffSeq[j][2]) ELSE Offered(s, i, OffSeq[j][1], OffSeq[j][2]))
+                                               /\ OffSeq[j][1] \in c.cts /\ OffSeq[j][2] \in c.zones]]]
+OptV(s, c, i) == OptVA(s, c, i, TRUE)
 CandPrice(s, i) == LET x == s.cands[i] IN IF Offered(s, x.t, x.ct, x.z) THEN Price(s, x.t, x.ct, x.z) ELSE 0
 CV(s, c) ==
     [method |-> c.method, s2s |-> s.flag,
@@ -135,7 +146,9 @@ Admit(s, c) ==
     LET cv == CV(s, c)
         hv == HV(s, c)
     IN /\ (wk = "twoReplacements" \/ G_C06_AtMostOneReplacement(cv))
-       /\ (IF wk = "le" THEN Le(cv) ELSE IF wk = "cheapest" THEN Cheapest(cv) ELSE G_C06_StrictlyCheaper(cv))
+       /\ (IF wk = "le" THEN Le(cv) ELSE IF wk = "cheapest" THEN Cheapest(cv)
+           ELSE IF wk = "ignoreAvail" THEN G_C06_StrictlyCheaper([cv EXCEPT !.opts = [i \in DOMAIN c.opts |-> OptVA(s, c, c.opts[i], FALSE)]])
+           ELSE G_C06_StrictlyCheaper(cv))
        /\ (S2SApplies(cv) => /\ (wk = "s2sFlag" \/ S2SFeature(cv))
                               /\ (wk = "s2sFew" \/ S2SEnough(cv, MinS2S))
                               /\ (wk = "s2sNoTruncate" \/ S2STruncated(cv, MinS2S)))
@@ -143,26 +156,31 @@ Admit(s, c) ==
        /\ (wk = "sameType" \/ G_C06_SameType(cv))
        /\ (IF wk = "emptyCost" THEN (cv.method = "emptiness" => cv.nrepl = 0) ELSE G_C06_EmptyMeansNoCost(cv))
        \* price focus: pods are tiny and there is no remaining node, every placement on the replacement is feasible
-       /\ (wk = "noHome" \/ c.method = "emptiness" \/ Focus = "price" \/ G_C06_PodsHaveHome(SGOf(s), hv))
+       /\ (wk = "noHome" \/ c.method = "emptiness" \/ Focus \in {"price", "avail"} \/ G_C06_PodsHaveHome(SGOf(s), hv))
 
 \* ---------------------------------------------------------------- scenarios
 FixedBase == [i \in TypeIdx |-> [ct \in CTs |-> IF ct = Spot THEN i ELSE i + 1]]
 PodSizes == IF Focus = "pods" THEN {1000, 3000} ELSE {100}
-CandSet == [t : TypeIdx, ct : CTs, z : IF Focus = "pods" THEN {"za"} ELSE Zones, pod : PodSizes,
+NoUnav == [i \in TypeIdx |-> {}]
+NoResv == [t |-> 1, state |-> "none", price |-> 0]
+Resvs == {NoResv} \cup [t : TypeIdx, state : {"avail", "exhausted"}, price : {0}]
+CandSet == [t : TypeIdx, ct : CTs, z : IF Focus \in {"pods", "avail"} THEN {"za"} ELSE Zones, pod : PodSizes,
             needOd : IF Focus = "pods" THEN BOOLEAN ELSE {FALSE}, costly : IF Focus = "pods" THEN BOOLEAN ELSE {TRUE}]
 \* canonical order of the removed nodes (a multiset, not a sequence)
 Rank(x) == ((((x.t * 2 + (IF x.ct = Spot THEN 0 ELSE 1)) * 2 + (IF x.z = "za" THEN 0 ELSE 1)) * 4 + x.pod \div 1000) * 2
             + (IF x.needOd THEN 1 ELSE 0)) * 2 + (IF x.costly THEN 1 ELSE 0)
 Sorted(q) == \A i \in 1..(Len(q) - 1) : Rank(q[i]) <= Rank(q[i + 1])
 Scenarios ==
-    {s \in [base : IF Focus = "price" THEN [TypeIdx -> [CTs -> Prices]] ELSE {FixedBase},
+    {s \in [base : IF Focus \in {"price", "avail"} THEN [TypeIdx -> [CTs -> Prices]] ELSE {FixedBase},
             zmod : IF Focus = "price" THEN [CTs -> ZMods] ELSE {[ct \in CTs |-> "same"]},
+            unav : IF Focus = "avail" THEN [TypeIdx -> SUBSET UnavCTs] ELSE {NoUnav},
+            resv : IF Focus = "avail" THEN Resvs ELSE {NoResv},
             cands : UNION {[1..n -> CandSet] : n \in 1..MaxCands},
             rest : IF Focus = "pods" THEN {-1, 0, 1000, 4000} ELSE {-1},
-            extra : {0}, spike : {FALSE}, flag : IF Focus = "pods" THEN {TRUE} ELSE BOOLEAN] :
+            extra : {0}, spike : {FALSE}, flag : IF Focus \in {"pods", "avail"} THEN {TRUE} ELSE BOOLEAN] :
         \* price focus: the removed nodes are a multiset (canonical order); pods focus: only the first one varies its
         \* pod's selector and eviction cost
-        /\ (IF Focus = "price" THEN Sorted(s.cands)
+        /\ (IF Focus \in {"price", "avail"} THEN Sorted(s.cands)
             ELSE \A i \in 2..Len(s.cands) : ~s.cands[i].needOd /\ s.cands[i].costly)
         /\ \A i \in DOMAIN s.cands : Offered(s, s.cands[i].t, s.cands[i].ct, s.cands[i].z)}
 
@@ -175,8 +193,9 @@ Commands(s) ==
     \cup {[method |-> IF Len(s.cands) = 1 THEN "single" ELSE "multi", nrepl |-> 0, opts |-> <<>>, cts |-> {}, zones |-> {}, place |-> p] :
             p \in {q \in Places(s) : \A k \in DOMAIN q : q[k] # NewHome}}
     \cup {[method |-> IF Len(s.cands) = 1 THEN "single" ELSE "multi", nrepl |-> n, opts |-> o, cts |-> c, zones |-> z, place |-> p] :
-            n \in IF wk = "twoReplacements" THEN {1, 2} ELSE {1}, o \in OptLists, c \in (SUBSET CTs) \ {{}},
-            z \in IF Focus = "price" THEN {Zones, {"za"}} ELSE {Zones},
+            n \in IF wk = "twoReplacements" THEN {1, 2} ELSE {1}, o \in OptLists,
+            c \in (SUBSET (IF Focus = "avail" THEN CTs \cup {Reserved} ELSE CTs)) \ {{}},
+            z \in IF Focus = "price" THEN {Zones, {"za"}} ELSE IF Focus = "avail" THEN {Zones, {"za"}} ELSE {Zones},
             p \in {q \in Places(s) : \E k \in DOMAIN q : q[k] = NewHome}}
 
 \* ---------------------------------------------------------------- the protocol
@@ -217,7 +236,7 @@ NoLaunch == /\ phase = "issued" /\ cmd.nrepl = 0
 
 Next == \/ \E c \in Commands(sc) : Decide(c)
         \/ ChurnAddPod \/ ChurnFill \/ ChurnReprice \/ Validate
-        \/ \E i \in 1..NTypes, j \in 1..4 : LaunchPrimary(i, j) \/ LaunchFallback(i, j)
+        \/ \E i \in 1..NTypes, j \in DOMAIN OffSeq : LaunchPrimary(i, j) \/ LaunchFallback(i, j)
         \/ NoLaunch
 Spec == Init /\ [][Next]_vars
 
@@ -234,7 +253,9 @@ Inv_C06_AtMostOneLaunch == Done => cmd.nrepl <= 1
 \* spot nodes are replaced by a spot launch only with the feature enabled, and a single node only when the price table
 \* holds MinS2S strictly cheaper spot-capable types
 SpotOnly == \A i \in Removed : sc.cands[i].ct = Spot
-CheaperSpotTypes == {i \in TypeIdx : \E z \in Zones : Offered(sc, i, Spot, z) /\ Avail(sc, i, Spot, z) /\ Price(sc, i, Spot, z) < Before}
+\* (a cheaper alternative is a type with SOME available offering below the node's price: the request may also reach it through
+\* a reservation or, where its spot offering is out of capacity, through on-demand)
+CheaperSpotTypes == {i \in TypeIdx : \E ct \in CTs \cup {Reserved}, z \in Zones : Usable(sc, i, ct, z) /\ Price(sc, i, ct, z) < Before}
 Inv_C06_SpotToSpotFeature == (Done /\ launch.kind = "primary" /\ SpotOnly /\ launch.ct = Spot) => sc.flag
 Inv_C06_SpotToSpotAlternatives ==
     (Done /\ launch.kind = "primary" /\ SpotOnly /\ launch.ct = Spot /\ Len(sc.cands) = 1) => Cardinality(CheaperSpotTypes) >= MinS2S
@@ -275,6 +296,12 @@ GenScenario == [base |-> [i \in TypeIdx |-> [spot |-> sc.base[i][Spot], od |-> s
                 zmod |-> [spot |-> sc.zmod[Spot], od |-> sc.zmod[OnDemand]],
                 cands |-> [i \in DOMAIN sc.cands |-> [t |-> sc.cands[i].t, ct |-> sc.cands[i].ct, z |-> sc.cands[i].z, pod |-> sc.cands[i].pod,
                                                       needOd |-> sc.cands[i].needOd, costly |-> sc.cands[i].costly]],
+                unav |-> [i \in TypeIdx |-> [spot |-> Spot \in sc.unav[i], od |-> OnDemand \in sc.unav[i]]],
+                resv |-> sc.resv,
+                \* the capacity types the NodePool allows (binding only: the model's commands range over every subset anyway)
+                poolCts |-> IF Focus = "price" THEN RandomElement({<<Reserved, Spot, OnDemand>>, <<Reserved, Spot, OnDemand>>, <<Reserved, OnDemand>>,
+                                                                  <<Spot, OnDemand>>, <<OnDemand>>, <<Reserved, Spot>>})
+                            ELSE <<Reserved, Spot, OnDemand>>,
                 rest |-> sc.rest, flag |-> sc.flag]
 GenPrint == phase # "setup" \/ PrintT(<<"BEH", ToJson(GenScenario)>>)
 \* generation only needs the initial states; a slice of the grid is selected by a hash of the scenario
@@ -290,6 +317,8 @@ RandCand(i) == [t |-> RandomElement(TypeIdx), ct |-> RandomElement(CTs), z |-> R
              needOd |-> FALSE, costly |-> TRUE]
 RandScenario(k) == [base |-> [i \in TypeIdx |-> [ct \in CTs |-> RandomElement(Prices)]],
                     zmod |-> [ct \in CTs |-> RandomElement(ZMods)],
+                    unav |-> [i \in TypeIdx |-> RandomElement(SUBSET CTs)],
+                    resv |-> RandomElement(Resvs),
                     cands |-> [i \in 1..RandomElement(1..MaxCands) |-> RandCand(i)],
                     rest |-> -1, extra |-> 0, spike |-> FALSE, flag |-> RandomElement(BOOLEAN)]
 RandInit == /\ wk = "" /\ cmd = NoCmd /\ phase = "setup" /\ launch = [kind |-> "-"]
